@@ -109,6 +109,10 @@ class Interp:
             if z3.is_int_value(s):
                 return items[s.as_long()]
             # symbolic index into a concrete list: If-chain (scalars only)
+            if not items:
+                # an EMPTY list has no element: any index is out of range, the value is never used on a feasible
+                # path (specifications mention it only under a guard that is false) - an arbitrary integer
+                return z3.Int(fresh_name("no_element"))
             out = items[-1]
             for k in range(len(items) - 2, -1, -1):
                 out = zite(i == k, items[k], out)
